@@ -43,7 +43,7 @@ wild_segment = wild_text.filter(lambda s: s != "" and "/" not in s and "\x00" no
 
 
 @st.composite
-def codebases(draw, wild=False, max_files=25, languages=None):
+def codebases(draw, wild=False, max_files=25, languages=None, clash=False):
     langs = languages or list(LANG_EXT)
     nfiles = draw(st.integers(0, max_files))
     seg = st.one_of(st.sampled_from(SEGMENTS), wild_segment) if wild else st.sampled_from(SEGMENTS)
@@ -61,7 +61,14 @@ def codebases(draw, wild=False, max_files=25, languages=None):
             if "/".join(parts[:k]) in files:
                 ok = False
         path = "/".join(parts + [base])
-        if not ok or path in files or path in dirs:
+        if clash and draw(st.integers(0, 3)) == 0 and dirs:
+            # a FILE named like an existing folder (in the same parent): the data model keeps files and folders apart
+            path = draw(st.sampled_from(sorted(dirs)))
+            ok = path not in files
+        elif not ok or path in dirs:
+            if not clash:
+                continue
+        if not ok or path in files:
             continue
         for k in range(1, len(parts) + 1):
             dirs.add("/".join(parts[:k]))
